@@ -38,8 +38,12 @@ def run_suite(wt):
 
 
 def main():
-    for pid in sys.argv[1:]:
-        base = "/tmp/mutout_%s" % pid
+    args = sys.argv[1:]
+    prefix, tag = "mutout", "m"
+    if args and args[0] == "--round2":
+        prefix, tag, args = "mutout2", "n", args[1:]
+    for pid in args:
+        base = "/tmp/%s_%s" % (prefix, pid)
         if not os.path.isdir(base):
             print(pid, "no output dir")
             continue
@@ -47,7 +51,7 @@ def main():
             d = os.path.join(base, mk)
             if not os.path.exists(os.path.join(d, "patch.diff")):
                 continue
-            name = "%s_%s" % (pid, mk)
+            name = "%s_%s" % (pid, mk.replace("m", tag, 1))
             wt = "/tmp/impwt_%s" % name
             sh(["git", "-C", "/repo", "worktree", "remove", "--force", wt])
             sh(["git", "-C", "/repo", "worktree", "add", "--detach", wt, "HEAD"])
